@@ -111,4 +111,625 @@ theorem held_after {r1 : R} {rn : List Fam} (f : Fam) :
   simp only [held, List.contains_append]
   cases r1.deferred.contains f <;> cases r1.released.contains f <;> cases rn.contains f <;> rfl
 
+/-- the reference state after a checked step -/
+def advance (r : R) (e : Ev) : R :=
+  let r1 := next r e
+  { r1 with released := r1.released ++ releasedNow r r1 }
+
+theorem inputOk_of_wf {cfg : Cfg} {s : St} {r : R} (hr : Rel s r) {m : RInner} (hm : s.sd = some m)
+    {i : RIn} (hwf : wf cfg r (.rd i) = true) : InputOk m i := by
+  intro pend dur hma
+  obtain ⟨_, hw, _, hp, hst⟩ := hr.sd_some m hm
+  have hns : r.started = false := by
+    cases h : r.started with
+    | false => rfl
+    | true => have := hst.mp h; simp [hma, isDeferring] at this
+  refine ⟨?_, ?_⟩
+  · rintro rfl
+    simp [wf, hns] at hwf
+  · rintro p f rfl
+    simp only [wf] at hwf
+    cases hu : upFams r p with
+    | none => simp [hu] at hwf
+    | some fs =>
+        simp only [upFams, Option.map_eq_some_iff] at hu
+        obtain ⟨e, he, rfl⟩ := hu
+        have hmem := List.mem_of_find?_eq_some he
+        have hpe : e.1 = p := by simpa using List.find?_some he
+        have hnt := hr.up_inv hns e hmem
+        rw [hpe] at hnt
+        cases hl : lookup p pend with
+        | none => rfl
+        | some set =>
+            exfalso
+            subst hma
+            have hset := hw.sets _ (mem_of_lookup_some hl)
+            cases hs : set with
+            | nil => exact hset.1 hs
+            | cons g rest =>
+                have : (p, g) ∈ pairs pend := (mem_pairs_self hw hl).mpr (by simp [hs])
+                have : tracked r p = true := tracked_iff.mpr ⟨g, (hp _).mp this⟩
+                rw [hnt] at this; cases this
+
+theorem step_rd {cfg : Cfg} {s : St} {r : R} (hr : Rel s r) (i : RIn) (hwf : wf cfg r (.rd i) = true) :
+    stepOk (some (.rd i)) r (next r (.rd i)) (step s (.rd i)).2 = .ok () ∧
+    Rel (step s (.rd i)).1 (advance r (.rd i)) := by
+  have hw1 : (next r (.rd i)).waiting = nextW r.waiting i := next_waiting r i
+  cases hsd : s.sd with
+  | none =>
+      have hw0 := hr.sd_none hsd
+      have hw' : (next r (.rd i)).waiting = [] := by rw [hw1, hw0]; cases i <;> simp [nextW]
+      have hnoheld : ∀ f, held r f = false := by
+        intro f
+        cases h : held r f with
+        | false => rfl
+        | true => have := (hr.held_iff f).mp h; simp [hw0, holds] at this
+      have hrn : releasedNow r (next r (.rd i)) = [] :=
+        eq_nil_of_forall_not_mem fun f hf => by simpa [hnoheld f] using (mem_releasedNow.mp hf).1
+      have hstep : step s (.rd i) =
+          (s, { outs := [], changes := [], tag := .absent, pending := [], installed := false,
+                flags := flagsOf s.tabs s.univ }) := by
+        simp [step, hsd]
+      rw [hstep]
+      refine ⟨stepOk_ok (by simp) (fun f _ h => by simp [hnoheld f] at h) (by simp [hrn]) (by simp [hrn])
+        (fun f _ _ => ⟨by simp [mentions], by simp⟩) (by simp) (by simp) (fun _ => by simp), ?_⟩
+      have hadv : advance r (.rd i) = next r (.rd i) := by simp [advance, hrn]
+      rw [hadv]
+      have hheld' : ∀ f, held (next r (.rd i)) f = held r f := by
+        intro f; simp [held, next_rd_deferred, next_rd_released]
+      refine ⟨fun m hm => by simp [hsd] at hm, fun _ => hw', fun f => by rw [hheld']; exact hr.flags f,
+        fun f n p => by rw [next_rd_rib]; exact hr.rib f n p, fun f => ?_, fun _ e he => ?_, fun f hf => ?_⟩
+      · rw [hheld', hnoheld f, hw']; simp [holds]
+      · simp [tracked, hw']
+      · rw [next_rd_deferred] at hf; exact hr.univ f hf
+  | some m =>
+      obtain ⟨hmc, hw, hne, hp, hst⟩ := hr.sd_some m hsd
+      have hi := inputOk_of_wf hr hsd hwf
+      have sp := process_spec m i hw (fun _ => hne) hi
+      obtain ⟨cs, tail, hsh⟩ := sp.shape
+      generalize hm' : (process m i).1 = m' at sp
+      generalize houts : (process m i).2 = outs at sp hsh
+      have ha := applyOuts_spec { s with sd := some m' } outs
+      obtain ⟨e1, e2, e3⟩ := endDeferralFamilies_spec (relFams outs) s.tabs
+      -- the step, spelled out
+      have hstep : step s (.rd i) =
+          ((applyOuts { s with sd := some m' } outs).1,
+           { outs := outs, changes := (applyOuts { s with sd := some m' } outs).2, tag := tagOf m',
+             pending := pendingOf m', installed := (applyOuts { s with sd := some m' } outs).1.sd.isSome,
+             flags := flagsOf (applyOuts { s with sd := some m' } outs).1.tabs s.univ }) := by
+        simp [step, hsd, hm', houts]
+      rw [hstep]
+      obtain ⟨ha1, ha2, ha3, ha4⟩ := ha
+      simp only at ha1 ha2 ha3 ha4
+      -- pairs of the new machine vs. the new waiting list
+      have hp' : ∀ x, x ∈ pairs (pendingOf m') ↔ x ∈ (next r (.rd i)).waiting := by
+        intro x; rw [sp.pairs, hw1]; exact nextW_congr hp i x
+      have hsub : ∀ x, x ∈ (next r (.rd i)).waiting → x ∈ r.waiting := by
+        intro x hx; rw [hw1] at hx; exact nextW_sub hx
+      -- released families
+      have hrel : ∀ f, f ∈ relFams outs ↔ f ∈ releasedNow r (next r (.rd i)) := by
+        intro f
+        rw [sp.rel_mem, mem_releasedNow, holdsP_iff_holds hp, holdsP_iff_holds hp', hr.held_iff]
+        simp
+      have hfl : ∀ f, ((applyOuts { s with sd := some m' } outs).1.tabs f).deferring =
+          (if f ∈ relFams outs then false else held r f) := by
+        intro f; rw [ha1, e2, hr.flags]
+      have hpa : ∀ f, ((applyOuts { s with sd := some m' } outs).1.tabs f).paths = (s.tabs f).paths := by
+        intro f; rw [ha1, e1]
+      have hch : (applyOuts { s with sd := some m' } outs).2 =
+          (relFams outs).flatMap fun g => announce g (s.tabs g).paths := by rw [ha2, e3]
+      refine ⟨stepOk_ok ?_ ?_ ?_ ?_ ?_ ?_ ?_ ?_, ?_⟩
+      · intro c hc _
+        simp only at hc; rw [hch] at hc
+        exact (hrel _).mp (mem_flatMap_announce_fam hc)
+      · intro f hf hh hnr
+        have hnr' : f ∉ relFams outs := fun h => hnr ((hrel f).mp h)
+        refine ⟨mem_flagsOf.mpr ⟨hr.univ f hf, by rw [hfl, if_neg hnr', hh]⟩, ?_⟩
+        cases hmn : mentions outs f with
+        | false => rfl
+        | true => exact absurd ((hsh.mentions f).mp hmn) hnr'
+      · intro f hf hfl'
+        have := (mem_flagsOf.mp hfl').2
+        rw [hfl, if_pos ((hrel f).mpr hf)] at this; cases this
+      · intro f hf
+        apply exactRelease_announce (paths := (s.tabs f).paths)
+        · intro n p; rw [next_rd_rib]; exact hr.rib f n p
+        · simp only; rw [hch, filter_flatMap_announce sp.rel_nodup, if_pos ((hrel f).mpr hf)]
+      · intro f hf hfr
+        have hnh : held r f = false := by simp [held, hfr]
+        have hnr' : f ∉ relFams outs := fun h => by
+          have := (mem_releasedNow.mp ((hrel f).mp h)).1; rw [hnh] at this; cases this
+        refine ⟨?_, fun _ c hc => ?_⟩
+        · cases hmn : mentions outs f with
+          | false => rfl
+          | true => exact absurd ((hsh.mentions f).mp hmn) hnr'
+        · simp only at hc; rw [hch] at hc
+          intro hcf; exact hnr' (hcf ▸ mem_flatMap_announce_fam hc)
+      · intro e he
+        simp only at he
+        have hset := sp.wf.sets e he
+        refine ⟨?_, hset.1⟩
+        cases hs : e.2 with
+        | nil => exact absurd hs hset.1
+        | cons g rest =>
+            exact tracked_iff.mpr ⟨g, (hp' _).mp (mem_pairs.mpr ⟨e.2, he, by simp [hs]⟩)⟩
+      · intro ht
+        simp only at ht ⊢
+        apply sp.nonempty
+        rintro rfl
+        simp [tagOf] at ht
+      · intro hwn
+        have hpn : pendingOf m' = [] :=
+          pend_nil_of_pairs_nil sp.wf (eq_nil_of_forall_not_mem fun x hx => by
+            have := (hp' x).mp hx; rw [hwn] at this; simp at this)
+        have hmc' : m' = .completed := by
+          cases hm'c : m' with
+          | completed => rfl
+          | awaiting q d => exact absurd hpn (sp.nonempty (by simp [hm'c]))
+          | deferring q => exact absurd hpn (sp.nonempty (by simp [hm'c]))
+        have hend := (sp.ended hmc).mpr hmc'
+        simp only
+        refine ⟨by simp [hmc', tagOf], by simp [hmc', tagOf], ?_⟩
+        rw [ha3, hend]; simp
+      -- the relation afterwards
+      · have hadvw : (advance r (.rd i)).waiting = (next r (.rd i)).waiting := rfl
+        have hheld : ∀ f, held (advance r (.rd i)) f = (held r f && !(relFams outs).contains f) := by
+          intro f
+          have h1 : held (advance r (.rd i)) f =
+              (held (next r (.rd i)) f && !(releasedNow r (next r (.rd i))).contains f) := held_after f
+          have h2 : held (next r (.rd i)) f = held r f := by
+            simp [held, next_rd_deferred, next_rd_released]
+          rw [h1, h2]
+          by_cases hf : f ∈ relFams outs
+          · simp [hf, (hrel f).mp hf]
+          · have : f ∉ releasedNow r (next r (.rd i)) := fun h => hf ((hrel f).mpr h)
+            simp [hf, this]
+        refine ⟨?_, ?_, ?_, ?_, ?_, ?_, ?_⟩
+        · intro m2 hm2
+          simp only at hm2
+          rw [ha3] at hm2
+          by_cases hend : (endRemaining outs).isSome = true
+          · simp [hend] at hm2
+          · simp only [hend, Bool.false_eq_true, ↓reduceIte, Option.some.injEq] at hm2
+            subst hm2
+            have hnc : m' ≠ .completed := fun h => hend ((sp.ended hmc).mpr h)
+            refine ⟨hnc, sp.wf, sp.nonempty hnc, fun x => by rw [hadvw]; exact hp' x, ?_⟩
+            have htag := process_tag m i hw (by rw [hm']; exact hnc)
+            rw [hm'] at htag
+            rw [htag, ← hst]
+            cases i with
+            | est p fams =>
+                simp only [advance, next, Bool.or_eq_true, List.any_eq_true, decide_eq_true_eq, RIn.est.injEq]
+                constructor
+                · rintro (h | ⟨e, he, rfl⟩)
+                  · exact Or.inl h
+                  · refine Or.inr ⟨e.1, fams, ⟨rfl, rfl⟩, e.2, (hp' _).mpr ?_⟩
+                    simpa [next] using he
+                · rintro (h | ⟨q, fams', ⟨rfl, rfl⟩, f, hf⟩)
+                  · exact Or.inl h
+                  · refine Or.inr ⟨(_, f), ?_, rfl⟩
+                    simpa [next] using (hp' _).mp hf
+            | eor p f => simp [advance, next]
+            | wd p => simp [advance, next]
+            | timer => simp [advance, next]
+        · intro hnone
+          simp only at hnone
+          rw [ha3] at hnone
+          by_cases hend : (endRemaining outs).isSome = true
+          · have hmc' := (sp.ended hmc).mp hend
+            rw [hadvw]
+            apply eq_nil_of_forall_not_mem
+            intro x hx
+            have := (hp' x).mpr hx
+            simp [hmc', pendingOf, pairs] at this
+          · simp [hend] at hnone
+        · intro f; simp only; rw [hfl, hheld]
+          by_cases hf : f ∈ relFams outs <;> simp [hf]
+        · intro f n p
+          rw [hpa]
+          show _ ↔ (f, n, p) ∈ (next r (.rd i)).rib
+          rw [next_rd_rib]; exact hr.rib f n p
+        · intro f
+          rw [hheld, hadvw]
+          by_cases hf : f ∈ relFams outs
+          · have := mem_releasedNow.mp ((hrel f).mp hf)
+            simp [hf, this.2]
+          · have hcf : (relFams outs).contains f = false := by simpa using hf
+            rw [hcf]
+            simp only [Bool.not_false, Bool.and_true]
+            constructor
+            · intro hh
+              cases hh2 : holds f (next r (.rd i)).waiting with
+              | true => rfl
+              | false => exact absurd ((hrel f).mpr (mem_releasedNow.mpr ⟨hh, hh2⟩)) hf
+            · intro hh
+              obtain ⟨p, hp2⟩ := holds_iff.mp hh
+              exact (hr.held_iff f).mpr (holds_iff.mpr ⟨p, hsub _ hp2⟩)
+        · intro hns e he
+          have htr : ∀ q, tracked r q = false → tracked (advance r (.rd i)) q = false := by
+            intro q hq
+            cases h : tracked (advance r (.rd i)) q with
+            | false => rfl
+            | true =>
+                obtain ⟨f, hf⟩ := tracked_iff.mp h
+                have : tracked r q = true := tracked_iff.mpr ⟨f, hsub _ hf⟩
+                rw [hq] at this; cases this
+          cases i with
+          | est p fams =>
+              simp only [advance, next, Bool.or_eq_false_iff] at hns he
+              simp only [List.mem_cons, List.mem_filter] at he
+              rcases he with rfl | ⟨he, _⟩
+              · simpa [advance, next, tracked] using hns.2
+              · exact htr _ (hr.up_inv hns.1 e he)
+          | eor p f => exact htr _ (hr.up_inv (by simpa [advance, next] using hns) e (by simpa [advance, next] using he))
+          | wd p =>
+              simp only [advance, next, List.mem_filter] at he
+              exact htr _ (hr.up_inv (by simpa [advance, next] using hns) e he.1)
+          | timer => exact htr _ (hr.up_inv (by simpa [advance, next] using hns) e (by simpa [advance, next] using he))
+        · intro f hf
+          simp only; rw [ha4]
+          exact hr.univ f (by simpa [advance, next_rd_deferred] using hf)
+
+/-- RIB mutators: what the property needs from `insert_route` / `remove_route` / `drop_families` -/
+structure TabOp (t : Tabs) (rib : List (Fam × Nat × Peer)) (t' : Tabs) (rib' : List (Fam × Nat × Peer))
+    (f : Fam) (changes : List Change) : Prop where
+  flag : ∀ g, (t' g).deferring = (t g).deferring
+  rib : (∀ g n p, (n, p) ∈ (t g).paths ↔ (g, n, p) ∈ rib) → ∀ g n p, (n, p) ∈ (t' g).paths ↔ (g, n, p) ∈ rib'
+  silent : (t f).deferring = true → changes = []
+  fam : ∀ c ∈ changes, c.fam = f
+
+theorem insert_op (t : Tabs) (rib : List (Fam × Nat × Peer)) (p : Peer) (f : Fam) (n : Nat)
+    (hrib : ∀ g n p, (n, p) ∈ (t g).paths ↔ (g, n, p) ∈ rib) :
+    TabOp t rib (insert t p f n).1 (if rib.contains (f, n, p) then rib else rib ++ [(f, n, p)]) f
+      (insert t p f n).2 := by
+  refine ⟨fun g => ?_, fun _ g m q => ?_, fun h => by simp [insert, h], fun c hc' => ?_⟩
+  · by_cases h : g = f
+    · subst h; simp [insert]
+    · simp [insert, set_other _ _ h]
+  · by_cases hcc : (f, n, p) ∈ rib
+    · have hm : (n, p) ∈ (t f).paths := (hrib f n p).mpr hcc
+      by_cases h : g = f
+      · subst h; simp [insert, hm, hcc, hrib]
+      · simp [insert, set_other _ _ h, hcc, hrib]
+    · have hm : (n, p) ∉ (t f).paths := fun h => hcc ((hrib f n p).mp h)
+      by_cases h : g = f
+      · subst h; simp [insert, hm, hcc, hrib]
+      · simp only [insert, set_other _ _ h, hrib, List.contains_iff_mem, hcc, ↓reduceIte, List.mem_append,
+          List.mem_singleton, Prod.mk.injEq]
+        constructor
+        · exact Or.inl
+        · rintro (h' | ⟨h', _⟩)
+          · exact h'
+          · exact absurd h' h
+  · simp only [insert] at hc'
+    by_cases hd : (t f).deferring = true
+    · simp [hd] at hc'
+    · simp only [hd, Bool.false_eq_true, ↓reduceIte, List.mem_singleton] at hc'
+      subst hc'; rfl
+
+theorem remove_op (t : Tabs) (rib : List (Fam × Nat × Peer)) (p : Peer) (f : Fam) (n : Nat)
+    (hrib : ∀ g n p, (n, p) ∈ (t g).paths ↔ (g, n, p) ∈ rib) :
+    TabOp t rib (remove t p f n).1 (rib.filter (· ≠ (f, n, p))) f (remove t p f n).2 := by
+  by_cases hm : (n, p) ∈ (t f).paths
+  · refine ⟨fun g => ?_, fun _ g m q => ?_, fun h => by simp [remove, hm, h], fun c hc' => ?_⟩
+    · by_cases h : g = f
+      · subst h; simp [remove, hm]
+      · simp [remove, hm, set_other _ _ h]
+    · by_cases h : g = f
+      · subst h
+        simp [remove, hm, hrib]
+      · simp only [remove, List.contains_iff_mem, hm, ↓reduceIte, set_other _ _ h, hrib, List.mem_filter, ne_eq,
+          decide_not, Bool.not_eq_eq_eq_not, Bool.not_true, decide_eq_false_iff_not, Prod.mk.injEq, not_and]
+        constructor
+        · intro h'; exact ⟨h', fun hh => absurd hh h⟩
+        · exact fun h' => h'.1
+    · simp only [remove, List.contains_iff_mem, hm, ↓reduceIte] at hc'
+      by_cases hd : (t f).deferring = true
+      · simp [hd] at hc'
+      · simp only [hd, Bool.false_eq_true, ↓reduceIte, List.mem_singleton] at hc'
+        subst hc'; rfl
+  · have hnm : (f, n, p) ∉ rib := fun h => hm ((hrib f n p).mpr h)
+    refine ⟨fun g => by simp [remove, hm], fun _ g m q => ?_, fun _ => by simp [remove, hm],
+      fun c hc' => by simp [remove, hm] at hc'⟩
+    simp only [remove, List.contains_iff_mem, hm, ↓reduceIte, hrib, List.mem_filter, ne_eq, decide_not,
+      Bool.not_eq_eq_eq_not, Bool.not_true, decide_eq_false_iff_not]
+    constructor
+    · intro h; exact ⟨h, fun he => hnm (he ▸ h)⟩
+    · exact fun h => h.1
+
+theorem drop_op (t : Tabs) (rib : List (Fam × Nat × Peer)) (p : Peer) (f : Fam)
+    (hrib : ∀ g n p, (n, p) ∈ (t g).paths ↔ (g, n, p) ∈ rib) :
+    TabOp t rib (dropPeer t p f).1 (rib.filter (fun e => !(e.1 = f && e.2.2 = p))) f (dropPeer t p f).2 := by
+  refine ⟨fun g => ?_, fun _ g m q => ?_, fun h => by simp [dropPeer, h], fun c hc' => ?_⟩
+  · by_cases h : g = f
+    · subst h; simp [dropPeer]
+    · simp [dropPeer, set_other _ _ h]
+  · by_cases h : g = f
+    · subst h
+      simp [dropPeer, hrib]
+    · simp [dropPeer, set_other _ _ h, hrib, h]
+  · simp only [dropPeer] at hc'
+    by_cases hd : (t f).deferring = true
+    · simp [hd] at hc'
+    · simp only [hd, Bool.false_eq_true, ↓reduceIte, List.mem_map] at hc'
+      obtain ⟨n, _, rfl⟩ := hc'; rfl
+
+/-- a RIB mutation is accepted by the checker and keeps the relation -/
+theorem step_tab {s : St} {r : R} (hr : Rel s r) (e : Ev) (f : Fam) (t' : Tabs) (changes : List Change)
+    (hne : isRd e = false)
+    (hw : (next r e).waiting = r.waiting) (hd : (next r e).deferred = r.deferred)
+    (hrl : (next r e).released = r.released) (hs : (next r e).started = r.started)
+    (hu : (next r e).up = r.up)
+    (hop : TabOp s.tabs r.rib t' (next r e).rib f changes) :
+    let o : Obs := { outs := [], changes := changes,
+                     tag := match s.sd with | some m => tagOf m | none => .absent,
+                     pending := match s.sd with | some m => pendingOf m | none => [],
+                     installed := s.sd.isSome, flags := flagsOf t' s.univ }
+    stepOk (some e) r (next r e) o = .ok () ∧ Rel { s with tabs := t' } (advance r e) := by
+  intro o
+  have hnorel : releasedNow r (next r e) = [] := by
+    apply eq_nil_of_forall_not_mem
+    intro g hg
+    obtain ⟨h1, h2⟩ := mem_releasedNow.mp hg
+    rw [hw, (hr.held_iff g).mp h1] at h2; cases h2
+  have hadv : advance r e = next r e := by simp [advance, hnorel]
+  have hheld : ∀ g, held (next r e) g = held r g := by intro g; simp [held, hd, hrl]
+  have htr : ∀ q, tracked (next r e) q = tracked r q := by intro q; simp [tracked, hw]
+  refine ⟨stepOk_ok ?_ ?_ (by simp [hnorel]) (by simp [hnorel]) ?_ ?_ ?_ ?_, ?_⟩
+  · intro c hc hh
+    have hcf := hop.fam c hc
+    have : (s.tabs f).deferring = true := by rw [hr.flags, ← hcf]; exact hh
+    have := hop.silent this
+    simp only [o] at hc; rw [this] at hc; simp at hc
+  · intro g hg hh _
+    exact ⟨mem_flagsOf.mpr ⟨hr.univ g hg, by rw [hop.flag, hr.flags]; exact hh⟩, by simp [o, mentions]⟩
+  · intro g _ _
+    refine ⟨by simp [o, mentions], fun h => ?_⟩
+    simp [hne] at h
+  · intro x hx
+    cases hsd : s.sd with
+    | none => simp [o, hsd] at hx
+    | some m =>
+        obtain ⟨_, hwf, _, hp, _⟩ := hr.sd_some m hsd
+        simp only [o, hsd] at hx
+        have hset := hwf.sets x hx
+        refine ⟨?_, hset.1⟩
+        rw [htr]
+        cases hs' : x.2 with
+        | nil => exact absurd hs' hset.1
+        | cons g rest =>
+            exact tracked_iff.mpr ⟨g, (hp _).mp (mem_pairs.mpr ⟨x.2, hx, by simp [hs']⟩)⟩
+  · intro ht
+    cases hsd : s.sd with
+    | none => simp [o, hsd] at ht
+    | some m => obtain ⟨_, _, hne', _, _⟩ := hr.sd_some m hsd; simpa [o, hsd] using hne'
+  · intro hwn
+    rw [hw] at hwn
+    cases hsd : s.sd with
+    | none => simp [o, hsd]
+    | some m =>
+        exfalso
+        obtain ⟨_, hwf, hne', hp, _⟩ := hr.sd_some m hsd
+        apply hne'
+        apply pend_nil_of_pairs_nil hwf
+        apply eq_nil_of_forall_not_mem
+        intro x hx; have := (hp x).mp hx; rw [hwn] at this; simp at this
+  · rw [hadv]
+    refine ⟨fun m hm => ?_, fun hn => by rw [hw]; exact hr.sd_none hn, fun g => ?_, hop.rib hr.rib, fun g => ?_,
+      fun hns x hx => ?_, fun g hg => hr.univ g (hd ▸ hg)⟩
+    · obtain ⟨a, b, c, d, e'⟩ := hr.sd_some m hm
+      exact ⟨a, b, c, fun x => by rw [hw]; exact d x, by rw [hs]; exact e'⟩
+    · show (t' g).deferring = _
+      rw [hop.flag, hheld]; exact hr.flags g
+    · rw [hheld, hw]; exact hr.held_iff g
+    · rw [htr]; exact hr.up_inv (hs ▸ hns) x (hu ▸ hx)
+
+theorem step_ok {cfg : Cfg} {s : St} {r : R} (hr : Rel s r) (e : Ev) (hwf : wf cfg r e = true) :
+    stepOk (some e) r (next r e) (step s e).2 = .ok () ∧ Rel (step s e).1 (advance r e) := by
+  cases e with
+  | rd i => exact step_rd hr i hwf
+  | ins p f n =>
+      have h := step_tab hr (.ins p f n) f (insert s.tabs p f n).1 (insert s.tabs p f n).2 rfl
+        (by simp only [next]; split <;> rfl) (by simp only [next]; split <;> rfl)
+        (by simp only [next]; split <;> rfl) (by simp only [next]; split <;> rfl)
+        (by simp only [next]; split <;> rfl)
+        (by
+          have := insert_op s.tabs r.rib p f n hr.rib
+          simp only [next]
+          by_cases hc : (f, n, p) ∈ r.rib
+          · simpa [hc] using this
+          · simpa [hc] using this)
+      exact h
+  | rm p f n =>
+      exact step_tab hr (.rm p f n) f (remove s.tabs p f n).1 (remove s.tabs p f n).2 rfl rfl rfl rfl rfl rfl
+        (remove_op s.tabs r.rib p f n hr.rib)
+  | drop p f =>
+      exact step_tab hr (.drop p f) f (dropPeer s.tabs p f).1 (dropPeer s.tabs p f).2 rfl rfl rfl rfl rfl rfl
+        (drop_op s.tabs r.rib p f hr.rib)
+
+/-! ## start-up -/
+
+theorem helpers_eq (l : List (Peer × List Fam)) : helpers l = dedupLast l := by
+  induction l with
+  | nil => rfl
+  | cons e rest ih => simp only [helpers, dedupLast, ih]
+
+theorem dedupLast_sub {l : List (Peer × List Fam)} {e} (h : e ∈ dedupLast l) : e ∈ l := by
+  induction l with
+  | nil => simp [dedupLast] at h
+  | cons a rest ih =>
+      simp only [dedupLast] at h
+      split at h
+      · exact List.mem_cons_of_mem _ (ih h)
+      · rcases List.mem_cons.mp h with rfl | h
+        · simp
+        · exact List.mem_cons_of_mem _ (ih h)
+
+theorem dedupLast_keys (l : List (Peer × List Fam)) : ((dedupLast l).map (·.1)).Nodup := by
+  induction l with
+  | nil => simp [dedupLast]
+  | cons a rest ih =>
+      simp only [dedupLast]
+      split
+      · exact ih
+      · rename_i h
+        simp only [List.map_cons, List.nodup_cons, List.mem_map, not_exists, not_and]
+        refine ⟨fun e he heq => h ?_, ih⟩
+        simp only [List.any_eq_true, decide_eq_true_eq]
+        exact ⟨e, dedupLast_sub he, heq⟩
+
+theorem mem_mkPending {l : List (Peer × List Fam)} {x : Peer × List Fam} :
+    x ∈ mkPending l ↔ ∃ e ∈ dedupLast l, (toSet e.2).isEmpty = false ∧ x = (e.1, toSet e.2) := by
+  simp only [mkPending, List.mem_filterMap]
+  constructor
+  · rintro ⟨e, he, h⟩
+    by_cases hem : (toSet e.2).isEmpty = true
+    · simp [hem] at h
+    · simp only [hem, Bool.false_eq_true, ↓reduceIte, Option.some.injEq] at h
+      exact ⟨e, he, by simpa using hem, h.symm⟩
+  · rintro ⟨e, he, hem, rfl⟩
+    exact ⟨e, he, by simp [hem]⟩
+
+theorem wfp_mkPending (l : List (Peer × List Fam)) : WFp (mkPending l) := by
+  refine ⟨?_, fun x hx => ?_⟩
+  · have hsub : ((mkPending l).map (·.1)).Sublist ((dedupLast l).map (·.1)) := by
+      unfold mkPending
+      generalize dedupLast l = d
+      induction d with
+      | nil => simp
+      | cons a rest ih =>
+          simp only [List.filterMap_cons, List.map_cons]
+          by_cases h : (toSet a.2).isEmpty = true
+          · simp only [h, ↓reduceIte]; exact List.Sublist.cons _ ih
+          · simp only [h, Bool.false_eq_true, ↓reduceIte, List.map_cons]; exact List.Sublist.cons_cons _ ih
+    exact List.Nodup.sublist hsub (dedupLast_keys l)
+  · obtain ⟨e, _, hem, rfl⟩ := mem_mkPending.mp hx
+    refine ⟨fun h => ?_, nodup_dedup _⟩
+    simp only at h; rw [h] at hem; simp at hem
+
+theorem mem_pairs_mkPending {l : List (Peer × List Fam)} {x : Peer × Fam} :
+    x ∈ pairs (mkPending l) ↔ x ∈ (helpers l).flatMap fun e => e.2.map fun f => (e.1, f) := by
+  obtain ⟨p, f⟩ := x
+  rw [mem_pairs, helpers_eq]
+  simp only [List.mem_flatMap, List.mem_map, Prod.mk.injEq]
+  constructor
+  · rintro ⟨s, hs, hf⟩
+    obtain ⟨e, he, _, heq⟩ := mem_mkPending.mp hs
+    simp only [Prod.mk.injEq] at heq
+    obtain ⟨rfl, rfl⟩ := heq
+    exact ⟨e, he, f, by simpa [toSet, mem_dedup] using hf, rfl, rfl⟩
+  · rintro ⟨e, he, g, hg, rfl, rfl⟩
+    refine ⟨toSet e.2, mem_mkPending.mpr ⟨e, he, ?_, rfl⟩, by simpa [toSet, mem_dedup] using hg⟩
+    cases h : toSet e.2 with
+    | nil => simp [toSet, dedup_eq_nil] at h; rw [h] at hg; simp at hg
+    | cons a b => rfl
+
+theorem startDeferralFamilies_spec (fs : List Fam) (t : Tabs) (g : Fam) :
+    ((startDeferralFamilies fs t) g).deferring = (fs.contains g || (t g).deferring) ∧
+    ((startDeferralFamilies fs t) g).paths = (t g).paths := by
+  induction fs generalizing t with
+  | nil => simp [startDeferralFamilies]
+  | cons f fs ih =>
+      have := ih (startDeferral t f)
+      simp only [startDeferralFamilies, List.foldl_cons] at this ⊢
+      rw [this.1, this.2]
+      by_cases h : g = f
+      · subst h; simp [startDeferral]
+      · simp [startDeferral, set_other _ _ h, h]
+
+theorem init_ok (cfg : Cfg) :
+    stepOk none {} (Spec.init cfg) (initObs cfg).2 = .ok () ∧ Rel (initObs cfg).1 (Spec.init cfg) := by
+  have hwf := wfp_mkPending cfg.peers
+  have hp : ∀ x, x ∈ pairs (mkPending cfg.peers) ↔ x ∈ (Spec.init cfg).waiting := fun x => mem_pairs_mkPending
+  have hdef : (Spec.init cfg).deferred = (Spec.init cfg).waiting.map (·.2) := rfl
+  have hrel0 : (Spec.init cfg).released = [] := rfl
+  have hheld : ∀ f, held (Spec.init cfg) f = holds f (Spec.init cfg).waiting := by
+    intro f
+    rw [Bool.eq_iff_iff, holds_iff]
+    have : held (Spec.init cfg) f = true ↔ f ∈ (Spec.init cfg).waiting.map (·.2) := by
+      simp [held, hdef, hrel0]
+    rw [this, List.mem_map]
+    constructor
+    · rintro ⟨e, he, rfl⟩; exact ⟨e.1, he⟩
+    · rintro ⟨p, hp'⟩; exact ⟨(p, f), hp', rfl⟩
+  have hnorel : releasedNow ({} : R) (Spec.init cfg) = [] := rfl
+  have huniv : ∀ f ∈ (Spec.init cfg).deferred, f ∈ dedup (famUniverse ++ cfg.peers.flatMap (·.2)) := by
+    intro f hf
+    rw [hdef] at hf
+    simp only [List.mem_map] at hf
+    obtain ⟨x, hx, rfl⟩ := hf
+    simp only [Spec.init, List.mem_flatMap, List.mem_map] at hx
+    obtain ⟨e, he, g, hg, rfl⟩ := hx
+    rw [helpers_eq] at he
+    rw [mem_dedup, List.mem_append]
+    exact Or.inr (List.mem_flatMap.mpr ⟨e, dedupLast_sub he, hg⟩)
+  by_cases hem : (mkPending cfg.peers).isEmpty = true
+  · have hnil := isEmpty_iff_nil.mp hem
+    have hw0 : (Spec.init cfg).waiting = [] :=
+      eq_nil_of_forall_not_mem fun x hx => by have := (hp x).mpr hx; simp [hnil, pairs] at this
+    have hio : initObs cfg = ({ univ := dedup (famUniverse ++ cfg.peers.flatMap (·.2)) },
+        { outs := [], changes := [], tag := .absent, pending := [], installed := false,
+          flags := flagsOf (fun _ => {}) (dedup (famUniverse ++ cfg.peers.flatMap (·.2))) }) := by
+      simp [initObs, init, new, hem, isCompleted]
+    rw [hio]
+    refine ⟨stepOk_ok (by simp) (by simp [hnorel]) (by simp [hnorel]) (by simp [hnorel]) (by simp) (by simp) (by simp)
+      (fun _ => by simp), ?_⟩
+    refine ⟨fun m hm => by simp at hm, fun _ => hw0, fun f => ?_, fun f n p => by simp [Spec.init], fun f => by rw [hheld],
+      fun _ e he => by simp [Spec.init] at he, huniv⟩
+    rw [hheld, hw0]; rfl
+  · have hne : mkPending cfg.peers ≠ [] := fun h => hem (isEmpty_iff_nil.mpr h)
+    have hio : initObs cfg =
+        ({ sd := some (.awaiting (mkPending cfg.peers) cfg.dur),
+           tabs := startDeferralFamilies (heldFams (mkPending cfg.peers)) (fun _ => {}),
+           univ := dedup (famUniverse ++ cfg.peers.flatMap (·.2)) },
+         { outs := [.deferFamilies (heldFams (mkPending cfg.peers))], changes := [], tag := .awaiting,
+           pending := mkPending cfg.peers, installed := true,
+           flags := flagsOf (startDeferralFamilies (heldFams (mkPending cfg.peers)) (fun _ => {}))
+             (dedup (famUniverse ++ cfg.peers.flatMap (·.2))) }) := by
+      simp [initObs, init, new, hem, isCompleted, tagOf, pendingOf]
+    rw [hio]
+    refine ⟨stepOk_ok (by simp) (by simp [hnorel]) (by simp [hnorel]) (by simp [hnorel]) (by simp) ?_ (fun _ => hne) ?_, ?_⟩
+    · intro e he
+      simp only at he
+      have hset := hwf.sets e he
+      refine ⟨?_, hset.1⟩
+      cases hs : e.2 with
+      | nil => exact absurd hs hset.1
+      | cons g rest => exact tracked_iff.mpr ⟨g, (hp _).mp (mem_pairs.mpr ⟨e.2, he, by simp [hs]⟩)⟩
+    · intro hwn
+      exfalso; apply hne
+      apply pend_nil_of_pairs_nil hwf
+      apply eq_nil_of_forall_not_mem
+      intro x hx; have := (hp x).mp hx; rw [hwn] at this; simp at this
+    · refine ⟨fun m hm => ?_, fun h => by simp at h, fun f => ?_, fun f n p => ?_, fun f => by rw [hheld],
+        fun _ e he => by simp [Spec.init] at he, huniv⟩
+      · simp only [Option.some.injEq] at hm; subst hm
+        exact ⟨by simp, hwf, hne, hp, by simp [Spec.init, isDeferring]⟩
+      · simp only
+        rw [(startDeferralFamilies_spec _ _ f).1, hheld, Bool.eq_iff_iff]
+        simp only [Bool.or_false, List.contains_iff_mem, mem_heldFams]
+        rw [holdsP_iff_holds hp]
+      · simp only
+        rw [(startDeferralFamilies_spec _ _ f).2]; simp [Spec.init]
+
+/-! ## the master theorem -/
+
+theorem checkFrom_ok (cfg : Cfg) (evs : List Ev) (s : St) (r : R) (i : Nat) (hr : Rel s r) :
+    checkFrom cfg r i evs (runFrom s evs).2 = .ok := by
+  induction evs generalizing s r i with
+  | nil => simp [runFrom, checkFrom]
+  | cons e es ih =>
+      simp only [runFrom, checkFrom]
+      by_cases hwf : wf cfg r e = true
+      · obtain ⟨hok, hrel⟩ := step_ok hr e hwf
+        simp only [hwf, Bool.not_true, Bool.false_eq_true, ↓reduceIte, hok]
+        exact ih _ _ _ hrel
+      · simp [hwf]
+
+/-- The C11 reference checker accepts every run of the model. -/
+theorem check_run_ok (cfg : Cfg) (evs : List Ev) : Spec.check cfg evs (run cfg evs) = .ok := by
+  obtain ⟨hok, hrel⟩ := init_ok cfg
+  simp only [run, Spec.check, hok]
+  exact checkFrom_ok cfg evs _ _ 1 hrel
+
 end Rbgp.Gr.Restarting
